@@ -177,6 +177,8 @@ def main(so, jobs_path, out_path):
                     if not w and job.get("skip_empty"):
                         continue
                     oc, e = enc_raw(w)
+                    if e is not None and job.get("announce_decode"):
+                        emit({"decoding": job["id"]})
                     cases.append([w, oc, mlw.decode(e) if e is not None else [], len(e) if e is not None else 0])
             emit({"id": job["id"], "cases": cases})
             continue
@@ -196,6 +198,8 @@ def main(so, jobs_path, out_path):
         res = {"id": job["id"], "outcome": oc, "len": len(e) if e is not None else 0, "n": int(w.size)}
         if verbose:
             res["modes"] = modes_of(vb.take())
+        if e is not None:
+            emit({"decoding": job["id"]})       # a death from here on is the reference decoder's, not the encoder's
         dec = mlw.decode(e) if e is not None else []
         if job.get("mode") == "py":
             # large request: compared here against the Python rendering of WeightOrder!Order
